@@ -266,7 +266,7 @@ class CoreGen:
             if self.features.get("narrow") and r.chance(70):
                 ty = r.choice(["tiny", "utiny", "short", "ushort", "char", "int", "uint"])
             x = self.fresh("v")
-            const = r.chance(8)
+            const = r.chance(30 if self.features.get("consts") else 8)
             static = (not glob) and r.chance(25 if self.features.get("calls") else 5) and "no_static" not in self.features
             if static and "static_aliases_caller_local" in self.gates:
                 self.stn = getattr(self, "stn", 0) + 1
